@@ -29,9 +29,11 @@ LEAD = st.sampled_from([0, 0, 0, 1, 2, 3])
 REFIDS = st.sampled_from(['ref1', 'Ref Two', 'r-3', 'alpha', 'bravo', 'Charlie'])
 CFG_MMD = gdoc.Cfg(inlines=['t', 'em', 'st', 'code', 'link', 'reflink', 'auto', 'img', 'esc', 'ent', 'bare', 'smart', 'fnref', 'imath', 'sup'],
                    blocks=['para', 'atx', 'setext', 'hr', 'fence', 'icode', 'quote', 'list', 'table', 'deflist', 'figure', 'math'],
-                   lead=LEAD, sublists=True, refids=REFIDS, cell_inlines=['t', 'em', 'code', 'smart', 'esc', 'ent'])
+                   lead=LEAD, sublists=True, refids=REFIDS, cell_inlines=['t', 'em', 'code', 'smart', 'esc', 'ent'],
+                   heading_inlines=['t', 'em', 'st', 'code', 'smart', 'esc', 'ent', 'link'])
 CFG_COMPAT = gdoc.Cfg(inlines=['t', 'em', 'st', 'code', 'link', 'reflink', 'auto', 'img', 'esc', 'ent', 'bare'],
-                      blocks=['para', 'atx', 'setext', 'hr', 'icode', 'quote', 'list'], lead=LEAD, sublists=True, refids=REFIDS)
+                      blocks=['para', 'atx', 'setext', 'hr', 'icode', 'quote', 'list'], lead=LEAD, sublists=True, refids=REFIDS,
+                      heading_inlines=['t', 'em', 'st', 'code', 'esc', 'ent', 'link'])
 CFG_COMP = gdoc.Cfg(inlines=['t', 'em', 'st', 'code', 'link', 'esc', 'smart'], blocks=['para', 'atx', 'setext', 'hr', 'fence', 'icode', 'quote'], max_blocks=8)
 NOT_MODELLED = ['reference images, parenthesised reference titles', 'raw HTML', 'citations', 'glossary', 'abbreviations', 'captions on tables', 'metadata variables', '{{TOC}}']
 
